@@ -10,6 +10,7 @@ CONSTANTS
  Behav <- BehAllVal
  Cancels = FALSE
  Raises = FALSE
+ Misbehaves = FALSE
  ShieldShared = TRUE
 INVARIANT Inv_C04
 INVARIANT Inv_C09
